@@ -16,7 +16,7 @@ their number is a CPython-internal matter, DESIGN appendix H).
 Descriptors (JSON, consumed by spec/PyExpr.tla):
     {"k":"v","id":n,"b":bool}                      recorder object (V or VIter)
     {"k":"b","b":bool}  {"k":"none"}               real bool / None
-    {"k":"c","t":type,"r":repr,"s":str,"b":bool}   other plain scalar (int, float, str, bytes, ...)
+    {"k":"c","t":type,"r":repr,"s":str,"b":bool}   other plain scalar (int, float, str, bytes, ...); small ints also "i": value
     {"k":"seq","t":"list"|"tuple"|"set","e":[...]} plain container (set elements in canonical order)
     {"k":"dict","ks":[...],"vs":[...]}             plain dict, insertion order
     {"k":"slice","e":[lo,hi,step]}
@@ -108,7 +108,10 @@ def desc(o):
         return {"k": "slice", "e": [desc(o.start), desc(o.stop), desc(o.step)]}
     if isinstance(o, (int, float, str, bytes, complex)) or o is Ellipsis:
         try:
-            return {"k": "c", "t": type(o).__name__, "r": _ascii(repr(o)), "s": _ascii(str(o)), "b": bool(o)}
+            d = {"k": "c", "t": type(o).__name__, "r": _ascii(repr(o)), "s": _ascii(str(o)), "b": bool(o)}
+            if type(o) is int and -2 ** 30 < o < 2 ** 30:
+                d["i"] = o          # the value itself (indices / slice bounds into plain containers; TLC ints are 32-bit)
+            return d
         except Exception:
             pass
     if getattr(o, "_vf_native", None):
